@@ -67,6 +67,46 @@ def expands(fi, expr, depth=0, prog=None):
     return out
 
 
+def _sound_memo(cls, mth, st, mutators):
+    """`self.A[key] = value` that cannot make a result depend on history: the same function tests/reads self.A, the value depends
+    on no parameter the key does not depend on, every other self attribute the function reads is written only by constructors,
+    and no other method of the class touches self.A."""
+    from sa.memo import memo_sites, missing_key_params
+    site = [x for x in memo_sites(mth) if x[0] is st]
+    if not site or missing_key_params(mth, site[0]):
+        return False
+    attr = site[0][1]
+
+    def self_attr(e):
+        return e.attr if isinstance(e, ast.Attribute) and isinstance(e.value, ast.Name) and e.value.id == "self" else None
+    read_here = {self_attr(x) for x in ast.walk(mth.node) if self_attr(x) and isinstance(x.ctx, ast.Load)} - {attr}
+    for other in cls.all_methods:
+        ctor = other.name == "__init__"
+        for x in ast.walk(other.node):
+            a = self_attr(x)
+            if a is None:
+                continue
+            if a == attr and other is not mth and not ctor and getattr(other.node, "name", None) != mth.name:
+                return False        # the memo is visible to another method
+            if a in read_here and not ctor:
+                # written (assigned, subscript-assigned or mutated) outside a constructor?
+                if isinstance(x.ctx, (ast.Store, ast.Del)):
+                    return False
+        if not ctor:
+            for x in ast.walk(other.node):
+                if isinstance(x, (ast.Assign, ast.AugAssign, ast.Delete)):
+                    for t in (x.targets if not isinstance(x, ast.AugAssign) else [x.target]):
+                        b = t
+                        while isinstance(b, ast.Subscript):
+                            b = b.value
+                        if b is not t and self_attr(b) in read_here:
+                            return False
+                if isinstance(x, ast.Call) and isinstance(x.func, ast.Attribute) and x.func.attr in mutators and \
+                        self_attr(x.func.value) in read_here:
+                    return False
+    return True
+
+
 def run(ctx):
     prog, cg = ctx.prog, ctx.cg
     ctx.rule("R4.1", "the ordering that feeds adjacent-duplicate detection is keyed on the canonical form that is compared")
@@ -260,9 +300,12 @@ def run(ctx):
             if isinstance(flag, ast.Constant):
                 continue
             n_flag += 1
+            def _on_ids(c):     # `id(g) in <ids>` / `id(g) == id(h)`: comparisons of identities
+                return isinstance(c.left, ast.Call) and isinstance(c.left.func, ast.Name) and c.left.func.id == "id"
             by_eq = [c for c in ast.walk(flag) if isinstance(c, ast.Compare) and any(
-                isinstance(o, (ast.In, ast.NotIn, ast.Eq, ast.NotEq)) for o in c.ops)]
-            by_id = [c for c in ast.walk(flag) if isinstance(c, ast.Compare) and any(isinstance(o, (ast.Is, ast.IsNot)) for o in c.ops)]
+                isinstance(o, (ast.In, ast.NotIn, ast.Eq, ast.NotEq)) for o in c.ops) and not _on_ids(c)]
+            by_id = [c for c in ast.walk(flag) if isinstance(c, ast.Compare) and (any(isinstance(o, (ast.Is, ast.IsNot)) for o in c.ops)
+                                                                                   or _on_ids(c))]
             helper_id = False
             for c in ast.walk(flag):
                 if isinstance(c, ast.Call):
@@ -360,6 +403,10 @@ def run(ctx):
                 if isinstance(st, ast.Call) and isinstance(st.func, ast.Attribute) and st.func.attr in MUT and \
                         isinstance(st.func.value, ast.Attribute) and isinstance(st.func.value.value, ast.Name) and st.func.value.value.id == "self":
                     bad = "mutates self.%s (.%s)" % (st.func.value.attr, st.func.attr)
+                if bad and isinstance(st, ast.Assign) and _sound_memo(vc, mth, st, MUT):
+                    ctx.ok("R4.8", "%s keeps a memo of a computation that depends on its key and on constructor-time state only" % mth.short,
+                           loc(mth, st))
+                    bad = None
                 if bad:
                     ctx.saw(mth)
                     ctx.violation("R4.8", mth.qualname, st, loc(mth, st),
